@@ -44,6 +44,7 @@ EStep ==
             THEN "background processing is wedged: a promise created afterwards is never timed out"
        ELSE IF Ev.do \in {"http", "grpc"} /\ Ev.name = "hostile" /\ Ev.class = "none" THEN "no reply to the request"
        ELSE IF Ev.do \in {"http", "grpc"} /\ Ev.class = "5xx" THEN "server error for a client input"
+       ELSE IF sc.ep = "lease" /\ Ev.do = "http" /\ Ev.name \in {"hostile", "finish"} /\ Ev.class # "2xx" THEN "a task was taken away before its lease had run out"
        ELSE IF Ev.do \in {"http", "grpc"} /\ Ev.name = "hostile" /\ sc.expect = "4xx" /\ Ev.class # "4xx" THEN "invalid request not refused"
        ELSE IF Ev.do = "db" /\ hostile = "4xx" /\ dbBefore # <<>> /\ Len(dbBefore) = 1
                /\ l > 2 /\ TraceLog[l - 1].e = "step" /\ TraceLog[l - 1].do \in {"http", "grpc"} /\ TraceLog[l - 1].name = "hostile"
@@ -73,6 +74,8 @@ C13_InvalidRefused == bad # "invalid request not refused"
 \* ... and leave no trace
 C13_RefusedLeavesNoTrace == bad # "a refused request left a trace"
 
+\* C07: a lease is honoured whatever its length (the lease end of the largest ttl values is still in the future)
+C07_LongLeaseHonoured == bad # "a task was taken away before its lease had run out"
 \* C04: only the server clock times a promise out: a completion that names a state a client may not set
 \* (pending, timed out, unknown) is refused by the front end and leaves no trace
 C04_ClientCannotTimeOut == bad \notin {"invalid request not refused", "a refused request left a trace", "server error for a client input"}
